@@ -63,8 +63,8 @@ m("c04_shifted_entries_lose_comment", "C04", "basictdf.py", "            entry.o
 m("c04_replace_default_comment", "C04", "basictdf.py", "        comment = comment if comment is not None else old_entry.comment\n", "        comment = comment if comment else \"Generated by basicTDF\"\n")
 m("c04_shifted_entries_dates_now", "C04", "basictdf.py", "            entry.offset -= oldEntry.size\n            entry._write(self.handler)",
   "            entry.offset -= oldEntry.size\n            entry.last_modification_date = datetime.now()\n            entry._write(self.handler)")
-m("neg_btsdate_round", "NEG", "tdfTypes.py", "return struct.pack(\"<i\", int(data.timestamp()))", "return struct.pack(\"<i\", int(round(data.timestamp() - 0.4999)) if data.microsecond else int(data.timestamp()))",
-  "negative control: same second")
+m("neg_btsdate_round", "NEG", "tdfTypes.py", "return struct.pack(\"<i\", int(data.timestamp()))", "return struct.pack(\"<i\", int(data.timestamp() // 1) if data.timestamp() >= 0 else int(data.timestamp()))",
+  "negative control: same second (floor == truncation for non-negative timestamps)")
 # ---- C05 ---------------------------------------------------------------------------------------
 m("c05_marker_no_nan_prefill", "C05", "tdfData3D.py", "        trackData[:] = np.NaN\n", "")
 m("c05_emg_clump_masked", "C05", "tdfEMG.py", "        return np.ma.clump_unmasked(maskedTrackData.T)", "        return np.ma.clump_unmasked(maskedTrackData.T) if maskedTrackData.count() else np.ma.clump_masked(maskedTrackData.T)")
